@@ -1,0 +1,122 @@
+// Copyright ©2012 The bíogo Authors. All rights reserved.
+// Use of this source code is governed by a BSD-style
+// license that can be found in the LICENSE file.
+
+//go:build verif
+
+// Contracts for the hvc verifier (see /verif/DESIGN.md). This file contains
+// comments only; it adds nothing to the package.
+package sam
+
+// CIGAR operations, SAM specification section 1.4 (table of CIGAR operations):
+// M, I, S, =, X consume the query; M, D, N, =, X consume the reference. The B
+// (back) operation is this library's extension and moves the reference
+// position backwards.
+//@ table consume
+//@ spec func opQ(t CigarOpType) int = ite(t == 0 || t == 1 || t == 4 || t == 7 || t == 8, 1, 0)
+//@ spec func opR(t CigarOpType) int = ite(t == 0 || t == 2 || t == 3 || t == 7 || t == 8, 1, ite(t == 9, 0 - 1, 0))
+//@ spec func opType(co CigarOp) CigarOpType = CigarOpType(co & 0xf)
+//@ spec func opLen(co CigarOp) int = int(co >> 4)
+//@ spec func wfCigar(c Cigar) bool = len(c) <= 65535 && forall i in 0..len(c) :: opType(c[i]) <= 10
+
+//@ func CigarOpType.Consumes
+//@   mode int
+//@   props C16
+//@   requires ct <= 10
+//@   ensures[C16] @table result.Query == opQ(ct) && result.Reference == opR(ct)
+//@   ensures[C16] @range (result.Query == 0 || result.Query == 1) && (result.Reference == 0 || result.Reference == 1 || result.Reference == 0 - 1)
+
+//@ func CigarOp.Type
+//@   inline
+//@ func CigarOp.Len
+//@   inline
+
+// Lengths: reference length = sum of the lengths of reference-consuming
+// operations (B excluded), query length = sum over query-consuming operations.
+//@ func Cigar.Lengths
+//@   mode int
+//@   props C16
+//@   terminates
+//@   requires wfCigar(c)
+//@   def refLen(n int) int = ite(n <= 0, 0, refLen(n-1) + ite(opR(opType(c[n-1])) == 1, opLen(c[n-1]), 0))
+//@   def readLen(n int) int = ite(n <= 0, 0, readLen(n-1) + ite(opQ(opType(c[n-1])) == 1, opLen(c[n-1]), 0))
+//@   loop 0 invariant @sums 0 - 1 <= rangeindex && rangeindex < len(c) && ref == refLen(rangeindex+1) && read == readLen(rangeindex+1)
+//@   loop 0 invariant @bounds 0 <= ref && ref <= (rangeindex+1) * 268435455 && 0 <= read && read <= (rangeindex+1) * 268435455
+//@   loop 0 decreases len(c) - rangeindex
+//@   ensures[C16] @ref ref == refLen(len(c))
+//@   ensures[C16] @read read == readLen(len(c))
+
+// Record.End: an unmapped record or one without CIGAR occupies one base; else
+// the end is the furthest reference position reached by any prefix of the
+// CIGAR (B operations may move backwards); without B operations this is
+// Pos + reference length. cigPos/cigMax/cigRef read the CIGAR as it is in
+// memory at function entry.
+//@ opaque entrystate spec func cigPos(c Cigar, n int) int = ite(n <= 0, 0, cigPos(c, n-1) +
+//@     ite(opR(opType(c[n-1])) == 1, opLen(c[n-1]), ite(opR(opType(c[n-1])) == 0 - 1, 0 - opLen(c[n-1]), 0)))
+//@ opaque entrystate spec func cigMax(c Cigar, n int) int = ite(n <= 0, 0, ite(cigMax(c, n-1) < cigPos(c, n), cigPos(c, n), cigMax(c, n-1)))
+//@ opaque entrystate spec func cigRef(c Cigar, n int) int = ite(n <= 0, 0, cigRef(c, n-1) + ite(opR(opType(c[n-1])) == 1, opLen(c[n-1]), 0))
+//@ spec func noBack(c Cigar, n int) bool = forall k in 0..n :: opType(c[k]) != 9
+//@ spec func unmappedOrBare(r *Record) bool = r.Flags & 4 != 0 || len(r.Cigar) == 0
+//@ spec func endSpec(r *Record) int = ite(unmappedOrBare(r), r.Pos + 1, r.Pos + cigMax(r.Cigar, len(r.Cigar)))
+//@ func max
+//@   inline
+//@ func Record.End
+//@   mode int
+//@   props C16
+//@   terminates
+//@   requires 0 - 1 <= r.Pos && r.Pos <= 536870912 && wfCigar(r.Cigar)
+//@   loop 0 invariant @walk 0 - 1 <= rangeindex && rangeindex < len(r.Cigar) && pos == r.Pos + cigPos(r.Cigar, rangeindex+1) && end == r.Pos + cigMax(r.Cigar, rangeindex+1)
+//@   loop 0 invariant @bounds 0 - (rangeindex+1) * 268435455 <= cigPos(r.Cigar, rangeindex+1) && cigPos(r.Cigar, rangeindex+1) <= (rangeindex+1) * 268435455 &&
+//@       0 <= cigMax(r.Cigar, rangeindex+1) && cigMax(r.Cigar, rangeindex+1) <= (rangeindex+1) * 268435455
+//@   loop 0 invariant @plain noBack(r.Cigar, rangeindex+1) ==> (cigPos(r.Cigar, rangeindex+1) == cigRef(r.Cigar, rangeindex+1) && cigMax(r.Cigar, rangeindex+1) == cigRef(r.Cigar, rangeindex+1))
+//@   loop 0 decreases len(r.Cigar) - rangeindex
+//@   ensures[C16] @end result == endSpec(r)
+//@   ensures[C16] @reflen (!unmappedOrBare(r) && noBack(r.Cigar, len(r.Cigar))) ==> result == r.Pos + cigRef(r.Cigar, len(r.Cigar))
+//@   ensures[C16] @atleast result >= r.Pos && result <= r.Pos + len(r.Cigar) * 268435455 + 1
+
+// Record.Len is End - Start.
+//@ func Record.Start
+//@   inline
+//@ func Record.Len
+//@   mode int
+//@   props C16
+//@   requires 0 - 1 <= r.Pos && r.Pos <= 536870912 && wfCigar(r.Cigar)
+//@   ensures[C16] @len result == endSpec(r) - r.Pos
+
+// Record.Bin: the bin of [Pos, End) by the SAM section 5.3 scheme; a record
+// without position (Pos == -1) goes to bin 4680 = reg2bin(-1, 0). The
+// alignment end of a mapped record whose CIGAR consumes no reference is not
+// constrained here (precondition end > Pos).
+//@ func Record.Bin
+//@   mode int
+//@   props C16, C04
+//@   requires 0 - 1 <= r.Pos && r.Pos < 536870912 && wfCigar(r.Cigar)
+//@   requires r.Pos == 0 - 1 ==> unmappedOrBare(r)
+//@   requires r.Pos >= 0 ==> (r.Pos < endSpec(r) && endSpec(r) <= 536870912)
+//@   ensures[C16,C04] @unplaced r.Pos == 0 - 1 ==> result == 4680
+//@   ensures[C16,C04] @inrange 0 <= result && result <= 37448
+//@   ensures[C16,C04] @contains r.Pos >= 0 ==> binContains(uint32(result), r.Pos, endSpec(r))
+//@   ensures[C16,C04] @deepest r.Pos >= 0 ==> forall k uint32 :: k <= 37448 && binContains(k, r.Pos, endSpec(r)) ==> binLevel(k) <= binLevel(uint32(result))
+
+// Cigar.IsValid(length): the query-consuming operations sum to length; hard
+// clips only at the two ends; soft clips only at the ends or separated from an
+// end by a hard clip only; a B operation never moves the position before the
+// start of the alignment ahead of a query-consuming operation.
+//@ spec func okH(c Cigar, i int) bool = opType(c[i]) == 5 ==> (i == 0 || i == len(c) - 1)
+//@ spec func okScode(c Cigar, i int) bool = (opType(c[i]) == 4 && i != 0 && i != len(c) - 1) ==> (opType(c[i-1]) == 5 || opType(c[i+1]) == 5)
+//@ spec func okS(c Cigar, i int) bool = opType(c[i]) == 4 ==> (i == 0 || i == len(c) - 1 || (i == 1 && opType(c[0]) == 5) || (i == len(c) - 2 && opType(c[len(c)-1]) == 5))
+//@ func Cigar.IsValid
+//@   mode int
+//@   props C16
+//@   terminates
+//@   requires wfCigar(c) && 0 - 1099511627776 <= length && length <= 1099511627776
+//@   def qLen(n int) int = ite(n <= 0, 0, qLen(n-1) + ite(opQ(opType(c[n-1])) == 1, opLen(c[n-1]), 0))
+//@   def posB(n int) int = ite(n <= 0, 0, posB(n-1) + ite(opR(opType(c[n-1])) == 1, opLen(c[n-1]), ite(opR(opType(c[n-1])) == 0 - 1, 0 - opLen(c[n-1]), 0)))
+//@   def okB(i int) bool = opQ(opType(c[i])) != 0 ==> posB(i) >= 0
+//@   loop 0 invariant @walk 0 - 1 <= rangeindex && rangeindex < len(c) && length == old(length) - qLen(rangeindex+1) && pos == posB(rangeindex+1)
+//@   loop 0 invariant @bounds 0 <= qLen(rangeindex+1) && qLen(rangeindex+1) <= (rangeindex+1) * 268435455 &&
+//@       0 - (rangeindex+1) * 268435455 <= posB(rangeindex+1) && posB(rangeindex+1) <= (rangeindex+1) * 268435455
+//@   loop 0 invariant @sofar forall k in 0..rangeindex+1 :: okH(c, k) && okScode(c, k) && okB(k)
+//@   loop 0 decreases len(c) - rangeindex
+//@   ensures[C16] @sound result ==> (qLen(len(c)) == length && forall i in 0..len(c) :: okH(c, i) && okS(c, i) && okB(i))
+//@   ensures[C16] @complete (qLen(len(c)) == length && forall i in 0..len(c) :: okH(c, i) && okS(c, i) && okB(i)) ==> result
